@@ -76,14 +76,13 @@ PLANS = {
                         "nng_pipe_close is asynchronous by design: only handles of closed sockets/contexts/dialers/listeners are required to be invalid immediately"],
     },
     "C20": {
-        "disabled": True,  # being triaged: see DESIGN.md
         "level": "fault_enumeration",
         "rule": ("each program is run once fault-free under a fixed seed to count its allocations N, then once per k with "
                  "allocation k failing (same seed, hence the identical execution up to the failure); a run is non-trivial "
                  "if the injected failure actually fired; distinct = distinct trace hash"),
         "budget_s": {"quick": 55, "thorough": 1200},
         "quick_first": 120, "quick_sample": 30,
-        "enum_seeds": {"quick": 1, "thorough": 3},
+        "enum_seeds": {"quick": 4, "thorough": 60},
         "enum_alloc": [{'scenario': 'c20_sp', 'params': {'proto': 0, 'tr': 0}}, {'scenario': 'c20_sp', 'params': {'proto': 0, 'tr': 1}}, {'scenario': 'c20_sp', 'params': {'proto': 0, 'tr': 2}}, {'scenario': 'c20_sp', 'params': {'proto': 0, 'tr': 3}}, {'scenario': 'c20_sp', 'params': {'proto': 1, 'tr': 0}}, {'scenario': 'c20_sp', 'params': {'proto': 1, 'tr': 1}}, {'scenario': 'c20_sp', 'params': {'proto': 1, 'tr': 2}}, {'scenario': 'c20_sp', 'params': {'proto': 1, 'tr': 3}}, {'scenario': 'c20_sp', 'params': {'proto': 2, 'tr': 0}}, {'scenario': 'c20_sp', 'params': {'proto': 2, 'tr': 1}}, {'scenario': 'c20_sp', 'params': {'proto': 2, 'tr': 2}}, {'scenario': 'c20_sp', 'params': {'proto': 2, 'tr': 3}}, {'scenario': 'c20_sp', 'params': {'proto': 3, 'tr': 0}}, {'scenario': 'c20_sp', 'params': {'proto': 3, 'tr': 1}}, {'scenario': 'c20_sp', 'params': {'proto': 3, 'tr': 2}}, {'scenario': 'c20_sp', 'params': {'proto': 3, 'tr': 3}}, {'scenario': 'c20_sp', 'params': {'proto': 4, 'tr': 0}}, {'scenario': 'c20_sp', 'params': {'proto': 4, 'tr': 1}}, {'scenario': 'c20_sp', 'params': {'proto': 4, 'tr': 2}}, {'scenario': 'c20_sp', 'params': {'proto': 4, 'tr': 3}}, {'scenario': 'c20_sp', 'params': {'proto': 5, 'tr': 0}}, {'scenario': 'c20_sp', 'params': {'proto': 5, 'tr': 1}}, {'scenario': 'c20_sp', 'params': {'proto': 5, 'tr': 2}}, {'scenario': 'c20_sp', 'params': {'proto': 5, 'tr': 3}}, {'scenario': 'c20_sp', 'params': {'proto': 6, 'tr': 0}}, {'scenario': 'c20_sp', 'params': {'proto': 6, 'tr': 1}}, {'scenario': 'c20_sp', 'params': {'proto': 6, 'tr': 2}}, {'scenario': 'c20_sp', 'params': {'proto': 6, 'tr': 3}}, {'scenario': 'c20_init', 'params': {'no_init': 1}}, {'scenario': 'c20_device', 'params': {}}, {'scenario': 'c20_http', 'params': {}}],
         "scenarios": [],
         "assumptions": ["enumeration is exhaustive over k for each (program, seed) but covers one schedule per seed",
